@@ -185,6 +185,20 @@ CHECKS = {
         "known findings listed by exact signature.",
         "3/C16",
     ),
+    "C18": (
+        "fault_enumeration",
+        "RngSeam + truncation/corruption/divergence enumeration",
+        "exhaustive fault enumeration: every proper prefix and every single-byte corruption (4 edits per offset) of every encoding of "
+        "every scene (all RNG outcomes), every (property, object, step, sign, magnitude) replay perturbation",
+        "55 (thorough 452) programs covering every value type and integer width class x all scenes (RNG tree, lattice for continuous draws): "
+        "round trip with the same and a recompiled scenario is exact; foreign programs / other options / every truncation are refused with "
+        "SerializationError; every single-byte corruption gives a scene or SerializationError, never another exception or a hang; replays "
+        "reproduce trajectory / actions / records under a different RNG path; with divergence checking DivergenceError iff |delta| > tol for "
+        "both signs of every dynamic property of every object at every step.",
+        "Trusted: the byte model models/codec_c18.py only labels fields; equality is decided on decoded scenes. Hang guard counts user CPU "
+        "time. Two known findings (mutate noise redrawn on decode; options hash ignores value types).",
+        "3/C18",
+    ),
 }
 
 NOT_YET = {}
